@@ -233,6 +233,10 @@ func parseHeaderValueBlock(r io.Reader, streamId StreamId) (http.Header, uint32,
 		if err := binary.Read(r, binary.BigEndian, &length); err != nil {
 			return nil, 0, err
 		}
+		if length > MaxDataLength {
+			// no frame can carry that much: do not allocate on the sender's word
+			return nil, 0, fmt.Errorf("HeaderValueBlock with invalid name length: %d", length)
+		}
 		headerLen += length
 		nameBytes := make([]byte, length)
 		if _, err := io.ReadFull(r, nameBytes); err != nil {
@@ -248,6 +252,9 @@ func parseHeaderValueBlock(r io.Reader, streamId StreamId) (http.Header, uint32,
 		}
 		if err := binary.Read(r, binary.BigEndian, &length); err != nil {
 			return nil, 0, err
+		}
+		if length > MaxDataLength {
+			return nil, 0, fmt.Errorf("HeaderValueBlock with invalid value length: %d", length)
 		}
 		headerLen += length
 		value := make([]byte, length)
